@@ -392,4 +392,161 @@ theorem sigma_err (mB mO a b sB sO N W Δ E : ℚ) (ha : 1 ≤ a) (hb : 1 ≤ b)
 
 end numeric
 
+/-! ## 3b. the loop invariant in rounded arithmetic -/
+
+/-- three roundings per update of a running mean -/
+def g3 (F E : ℚ) : ℚ := gstep F (gstep F (gstep F E))
+
+section loop
+variable {rnd : ℚ → ℚ}
+
+theorem otsuTrace_rd_cons (h nB nO : Nat → Nat) (T : Nat) (rest : List Nat) (muB muO : ℚ)
+    (h1 : nB T ≠ 0) (h2 : nO T ≠ 0) :
+    otsuTrace (α := Rd rnd) (rdCast rnd) h nB nO (T :: rest) muB muO =
+      (T, (rnd (rnd (rnd (rnd (nB T : ℚ) * rnd (nO T : ℚ)) *
+            rnd (rnd (rnd (rnd (muB * rnd (nB (T - 1) : ℚ)) + rnd ((T * h T : ℕ) : ℚ)) / rnd (nB T : ℚ)) -
+              rnd (rnd (rnd (muO * rnd (nO (T - 1) : ℚ)) - rnd ((T * h T : ℕ) : ℚ)) / rnd (nO T : ℚ)))) *
+            rnd (rnd (rnd (rnd (muB * rnd (nB (T - 1) : ℚ)) + rnd ((T * h T : ℕ) : ℚ)) / rnd (nB T : ℚ)) -
+              rnd (rnd (rnd (muO * rnd (nO (T - 1) : ℚ)) - rnd ((T * h T : ℕ) : ℚ)) / rnd (nO T : ℚ)))) : ℚ)) ::
+        otsuTrace (α := Rd rnd) (rdCast rnd) h nB nO rest
+          (rnd (rnd (rnd (muB * rnd (nB (T - 1) : ℚ)) + rnd ((T * h T : ℕ) : ℚ)) / rnd (nB T : ℚ)) : ℚ)
+          (rnd (rnd (rnd (muO * rnd (nO (T - 1) : ℚ)) - rnd ((T * h T : ℕ) : ℚ)) / rnd (nO T : ℚ)) : ℚ) := by
+  simp only [otsuTrace, if_neg h1, if_neg h2]
+  rfl
+
+theorem otsuTrace_rd_continue (h nB nO : Nat → Nat) (T : Nat) (rest : List Nat) (muB muO : ℚ)
+    (h1 : nB T = 0) :
+    otsuTrace (α := Rd rnd) (rdCast rnd) h nB nO (T :: rest) muB muO =
+      otsuTrace (α := Rd rnd) (rdCast rnd) h nB nO rest muB muO := by
+  simp only [otsuTrace, if_pos h1]
+
+theorem otsuTrace_rd_break (h nB nO : Nat → Nat) (T : Nat) (rest : List Nat) (muB muO : ℚ)
+    (h1 : nB T ≠ 0) (h2 : nO T = 0) :
+    otsuTrace (α := Rd rnd) (rdCast rnd) h nB nO (T :: rest) muB muO = [] := by
+  simp only [otsuTrace, if_neg h1, if_pos h2]
+
+/-- **Loop invariant in rounded arithmetic.** `E t` bounds `|m̂_B·n_B − s_B|` and `|m̂_O·n_O − s_O|`
+    after level `t`; each proper step costs three roundings (`g3`).  Every value `σ̂(T)` in the trace is
+    within `sigBound N N² Δ Emax` of the exact `σ(T)`. -/
+theorem otsuTrace_rd (hr : Rounding rnd) (hist : List Nat) (N Fn : ℕ)
+    (hN : N = nBOf hist (hist.length - 1)) (hF : Fn = sBOf hist (hist.length - 1))
+    (hNN : N * N ≤ 2 ^ 53) (hFF : Fn ≤ 2 ^ 53) (Δ Emax : ℚ) (E : ℕ → ℚ)
+    (hEmono : ∀ t, E t ≤ E (t + 1)) (hEmax : ∀ t, t < hist.length → E t ≤ Emax)
+    (hEstep : ∀ T, 1 ≤ T → T < hist.length → nBOf hist T ≠ 0 → nOOf hist T ≠ 0 →
+      g3 (Fn : ℚ) (E (T - 1)) ≤ E T)
+    (hΔ : ∀ T, T < hist.length → nBOf hist T ≠ 0 → nOOf hist T ≠ 0 →
+      |(sBOf hist T : ℚ) / (nBOf hist T : ℚ) -
+        ((Fn - sBOf hist T : ℕ) : ℚ) / (nOOf hist T : ℚ)| ≤ Δ)
+    (k : ℕ) : ∀ (T : ℕ) (muB muO : ℚ), 1 ≤ T → T + k = hist.length →
+      |muB * (nBOf hist (T - 1) : ℚ) - (sBOf hist (T - 1) : ℚ)| ≤ E (T - 1) →
+      |muO * (nOOf hist (T - 1) : ℚ) - ((Fn - sBOf hist (T - 1) : ℕ) : ℚ)| ≤ E (T - 1) →
+      ∀ p ∈ otsuTrace (α := Rd rnd) (rdCast rnd) (hOf hist) (nBOf hist) (nOOf hist)
+          (List.range' T k) muB muO,
+        |Rd.val rnd p.2 - otsuSigma hist p.1| ≤ sigBound (N : ℚ) ((N : ℚ) * (N : ℚ)) Δ Emax := by
+  induction k with
+  | zero => intro T muB muO _ _ _ _ p hp; simp [otsuTrace] at hp
+  | succ k ih =>
+    intro T muB muO hT hTk hmuB hmuO p hp
+    have hTn : T < hist.length := by omega
+    have eT : T - 1 + 1 = T := by omega
+    have hE0 : 0 ≤ E (T - 1) := le_trans (abs_nonneg _) hmuB
+    have hEle : E (T - 1) ≤ E T := by have := hEmono (T - 1); rwa [eT] at this
+    rw [List.range'_succ] at hp
+    by_cases h1 : nBOf hist T = 0
+    · -- continue
+      rw [otsuTrace_rd_continue _ _ _ _ _ _ _ h1] at hp
+      have h0 : nBOf hist (T - 1) = 0 := by
+        have := nB_mono hist (Nat.sub_le T 1) hTn
+        omega
+      have hs1 := sB_eq_zero_of_nB hist hTn h1
+      have hs0 := sB_eq_zero_of_nB hist (by omega) h0
+      refine ih (T + 1) muB muO (by omega) (by omega) ?_ ?_ p hp
+      · rw [Nat.add_sub_cancel, h1, hs1]; simp; exact le_trans hE0 hEle
+      · rw [Nat.add_sub_cancel]
+        have : nOOf hist T = nOOf hist (T - 1) := by unfold nOOf; rw [h1, h0]
+        rw [this, hs1]
+        rw [hs0] at hmuO
+        exact le_trans hmuO hEle
+    · by_cases h2 : nOOf hist T = 0
+      · rw [otsuTrace_rd_break _ _ _ _ _ _ _ h1 h2] at hp
+        simp at hp
+      · -- a proper step
+        rw [otsuTrace_rd_cons _ _ _ _ _ _ _ h1 h2] at hp
+        -- sizes: every count converted is exact
+        have hNle : ∀ t, t < hist.length → nBOf hist t ≤ N := fun t ht => by
+          rw [hN]; exact nB_mono hist (by omega) (by omega)
+        have hOle : ∀ t, nOOf hist t ≤ N := fun t => by rw [hN]; unfold nOOf; omega
+        have hN53 : N ≤ 2 ^ 53 := by
+          rcases Nat.eq_zero_or_pos N with h | h
+          · rw [h]; positivity
+          · calc N = N * 1 := (Nat.mul_one N).symm
+              _ ≤ N * N := Nat.mul_le_mul_left N h
+              _ ≤ 2 ^ 53 := hNN
+        have rs : sBOf hist T = sBOf hist (T - 1) + T * hOf hist T := by
+          have := sB_succ hist (T - 1) (by omega)
+          rwa [eT] at this
+        have hsF : ∀ t, t < hist.length → sBOf hist t ≤ Fn := fun t ht => by
+          rw [hF]; exact sB_mono hist (by omega) (by omega)
+        have c1 : rnd ((nBOf hist (T - 1) : ℕ) : ℚ) = (nBOf hist (T - 1) : ℚ) :=
+          rnd_nat hr _ (le_trans (hNle _ (by omega)) hN53)
+        have c2 : rnd ((nBOf hist T : ℕ) : ℚ) = (nBOf hist T : ℚ) :=
+          rnd_nat hr _ (le_trans (hNle _ hTn) hN53)
+        have c3 : rnd ((nOOf hist (T - 1) : ℕ) : ℚ) = (nOOf hist (T - 1) : ℚ) :=
+          rnd_nat hr _ (le_trans (hOle _) hN53)
+        have c4 : rnd ((nOOf hist T : ℕ) : ℚ) = (nOOf hist T : ℚ) :=
+          rnd_nat hr _ (le_trans (hOle _) hN53)
+        have c5 : rnd ((T * hOf hist T : ℕ) : ℚ) = ((T * hOf hist T : ℕ) : ℚ) :=
+          rnd_nat hr _ (by have := hsF T hTn; omega)
+        have c6 : rnd ((nBOf hist T : ℚ) * (nOOf hist T : ℚ)) = (nBOf hist T : ℚ) * (nOOf hist T : ℚ) := by
+          have := rnd_nat hr (nBOf hist T * nOOf hist T)
+            (le_trans (Nat.mul_le_mul (hNle _ hTn) (hOle _)) hNN)
+          rwa [Nat.cast_mul] at this
+        rw [c1, c2, c3, c4, c5, c6] at hp
+        have pB : (0 : ℚ) < (nBOf hist T : ℚ) := by exact_mod_cast Nat.pos_of_ne_zero h1
+        have pO : (0 : ℚ) < (nOOf hist T : ℚ) := by exact_mod_cast Nat.pos_of_ne_zero h2
+        have hFn0 : (0 : ℚ) ≤ (Fn : ℚ) := by positivity
+        -- the two updated means
+        have hB := chain_step hr muB (nBOf hist (T - 1) : ℚ) (nBOf hist T : ℚ) ((T * hOf hist T : ℕ) : ℚ)
+          (sBOf hist (T - 1) : ℚ) (sBOf hist T : ℚ) (Fn : ℚ) (E (T - 1)) pB (by positivity)
+          (by exact_mod_cast hsF _ (by omega)) (by positivity) (by exact_mod_cast hsF _ hTn)
+          (by rw [rs]; push_cast; ring) hmuB
+        have hsub : ((Fn - sBOf hist T : ℕ) : ℚ) =
+            ((Fn - sBOf hist (T - 1) : ℕ) : ℚ) + -((T * hOf hist T : ℕ) : ℚ) := by
+          rw [Nat.cast_sub (hsF _ hTn), Nat.cast_sub (hsF _ (by omega)), rs]; push_cast; ring
+        have hO := chain_step hr muO (nOOf hist (T - 1) : ℚ) (nOOf hist T : ℚ) (-((T * hOf hist T : ℕ) : ℚ))
+          ((Fn - sBOf hist (T - 1) : ℕ) : ℚ) ((Fn - sBOf hist T : ℕ) : ℚ) (Fn : ℚ) (E (T - 1)) pO
+          (by positivity) (by exact_mod_cast Nat.sub_le _ _) (by positivity)
+          (by exact_mod_cast Nat.sub_le _ _) hsub hmuO
+        rw [← sub_eq_add_neg] at hO
+        have hstep := hEstep T hT hTn h1 h2
+        unfold g3 at hstep
+        have hB' := le_trans hB hstep
+        have hO' := le_trans hO hstep
+        rcases List.mem_cons.1 hp with rfl | hp
+        · -- the value computed at this level
+          simp only [Rd.val]
+          have hab : (nBOf hist T : ℚ) + (nOOf hist T : ℚ) = (N : ℚ) := by
+            have : nBOf hist T + nOOf hist T = N := by
+              have := hNle T hTn; rw [hN] at this ⊢; unfold nOOf; omega
+            exact_mod_cast this
+          have hWW : (nBOf hist T : ℚ) * (nOOf hist T : ℚ) ≤ (N : ℚ) * (N : ℚ) := by
+            exact_mod_cast Nat.mul_le_mul (hNle _ hTn) (hOle T)
+          have hEm0 : 0 ≤ Emax := le_trans (le_trans hE0 hEle) (hEmax T hTn)
+          have := sigma_err hr _ _ (nBOf hist T : ℚ) (nOOf hist T : ℚ) (sBOf hist T : ℚ)
+            ((Fn - sBOf hist T : ℕ) : ℚ) (N : ℚ) ((N : ℚ) * (N : ℚ)) Δ Emax
+            (by exact_mod_cast Nat.pos_of_ne_zero h1) (by exact_mod_cast Nat.pos_of_ne_zero h2)
+            hab hWW hEm0 (le_trans hB' (hEmax T hTn)) (le_trans hO' (hEmax T hTn)) (hΔ T hTn h1 h2)
+          have hsig : otsuSigma hist T = (nBOf hist T : ℚ) * (nOOf hist T : ℚ) *
+              ((sBOf hist T : ℚ) / (nBOf hist T : ℚ) - ((Fn - sBOf hist T : ℕ) : ℚ) / (nOOf hist T : ℚ)) *
+              ((sBOf hist T : ℚ) / (nBOf hist T : ℚ) - ((Fn - sBOf hist T : ℕ) : ℚ) / (nOOf hist T : ℚ)) := by
+            unfold otsuSigma sigmaOf
+            rw [if_neg (by rintro (h | h); exact h1 h; exact h2 h), hF]
+          rw [hsig]
+          exact this
+        · refine ih (T + 1) _ _ (by omega) (by omega) ?_ ?_ p hp
+          · rw [Nat.add_sub_cancel]; exact hB'
+          · rw [Nat.add_sub_cancel]; exact hO'
+
+end loop
+
 end Mahotas.C16
